@@ -38,8 +38,8 @@ MANIFEST = {
             "referredSemanticId, the shell/submodel superpath (PUT / DELETE / redirect through a shell's reference), and - as a reference repository of "
             "plain JSON documents - submodels over all 14 element classes with typed values (Property, Range, Qualifier, Extension; replacements within "
             "families of Python-equal forms), lists of every element/value type and their replacement by lists of another type, every write read back at "
-            "every level in JSON and XML; NOT covered: asset-information, $reference routes, idShort/assetIds/semanticId filters, paths into list "
-            "children (the path converter rejects numeric segments); bodies abstracted to decode outcomes in the Lean model; werkzeug "
+            "every level in JSON and XML; NOT covered: asset-information, $reference routes, idShort/assetIds/semanticId filters; paths into list "
+            "children are judged by a directed probe and are two recorded known findings (the path converter rejects numeric segments); bodies abstracted to decode outcomes in the Lean model; werkzeug "
             "routing/conversion trusted and sampled",
     "technique": "Lean 4 proof: invariant + forward simulation over all request histories; ast-extracted tables; differential correspondence via werkzeug.test.Client; independent dict reference repository as oracle",
 }
